@@ -922,7 +922,7 @@ class SimpleShape(DefinedShape):
             return areaA > 0 and areaB < 0
         if areaA > 0 and areaB < 0:
             return jordana in self and jordanb not in other
-        if areaA > areaB or jordana not in self:
+        if areaA > areaB + 1e-6 or jordana not in self:
             return False
         if areaA > 0:
             return True
